@@ -83,6 +83,27 @@ Theorem C18_no_repetition_bounded : forall nn nt k views e,
 Proof. exact no_repetition_bounded. Qed.
 Print Assumptions C18_no_repetition_bounded.
 
+(* OBSERVATION, deliberately NOT part of the property: "without repetition" is read as "no scenario
+   value is yielded twice" (above).  Up to the order of the partitions within a view, which has no
+   meaning for the network, the generator repeats itself when two partitions have the same size:
+   3 replicas / 1 twin pair / 2 partitions gives 12 options of which two pairs are the same view
+   (10 distinct).  [view_equiv a b] = same leader and partition lists that are permutations. *)
+Theorem C18_observation_partition_order_refuted :
+  exists lp i j a b,
+    option_list 3 1 2 = Ok lp /\ length lp = 12 /\ i < j /\
+    nth_error lp i = Some a /\ nth_error lp j = Some b /\ view_equiv a b.
+Proof. exact options_repeat_up_to_partition_order. Qed.
+Print Assumptions C18_observation_partition_order_refuted.
+
+(* ... whereas options that were pairwise different up to that order would give scenarios that are
+   pairwise different up to that order, for every number of views (generic, unbounded). *)
+Theorem C18_observation_distinct_up_to_order_lifts : forall (lp : list view_opt) (k e : nat),
+  ForallOrdPairs (fun a b => ~ view_equiv a b) lp ->
+  ForallOrdPairs (fun s t => ~ Forall2 view_equiv s t)
+                 (scenarios (fst (run_n (length lp ^ k + e) (init lp k)))).
+Proof. exact distinct_up_to_order_lifts. Qed.
+Print Assumptions C18_observation_distinct_up_to_order_lifts.
+
 (* Size vectors for ALL n >= 1 and k (genPartitionSizes(n, k, 1), the only minimum NewGenerator
    uses): the result is exactly the set of non-increasing splits of n into k parts (trailing zeros
    = unused partitions), each once. *)
